@@ -76,7 +76,11 @@ def random_vectors(ctx, binary, n):
     recs = vf.read_ndjson(vp)
     if len(recs) < n // 2:
         raise vf.Inconclusive("random vector driver produced only %d vectors" % len(recs))
-    nsh = max(2, min(vf.NCPU, 12))
+    return recs, validate_vectors(ctx, recs)
+
+
+def validate_vectors(ctx, recs):
+    nsh = max(1, min(vf.NCPU, 12, len(recs) // 50 + 1))
     shards = [recs[i::nsh] for i in range(nsh)]
 
     def one(i):
@@ -95,8 +99,45 @@ def random_vectors(ctx, binary, n):
                 raise vf.Inconclusive("TLC judged %d of %d vectors of shard %d" % (len(vs), len(shards[i]), i))
             for v in vs:
                 verdicts[v["n"]] = v
-    ctx.log("TLC judged %d random vectors recorded from the real code" % len(verdicts))
-    return recs, verdicts
+    ctx.log("TLC judged %d vectors recorded from the real code" % len(verdicts))
+    return verdicts
+
+
+def replay_run(ctx, prop):
+    """bin/check <ID> --replay PATH: re-execute the inputs of the reported violations on the current tree;
+    the real results are judged by TLC (Trace_Cql.tla)."""
+    rp = json.load(open(ctx.replay))
+    inputs, seen = [], set()
+    for v in rp.get("violations", []):
+        d = v.get("detail") or {}
+        if "case" in d:
+            c = d["case"]
+            i = dict(T=c["T"], p=c["p"], K=c["K"], gv=c["gv"], targets=[t["K"] for t in c["targets"]])
+        elif "vector" in d:
+            r = d["vector"]
+            i = dict(T=r["T"], p=r["p"], K=r["K"], gv=r["gv"], targets=[x["K"] for x in r["decs"]])
+        else:
+            continue
+        k = json.dumps(i, sort_keys=True)
+        if k not in seen:
+            seen.add(k)
+            inputs.append(i)
+    if not inputs:
+        raise vf.Inconclusive("no replayable inputs in %s" % ctx.replay)
+    binary = vf.build_gotest(ctx, ".", harness_dirs())
+    ip, vp = os.path.join(ctx.tmp, "inputs.ndjson"), os.path.join(ctx.tmp, "rerun.ndjson")
+    vf.write_ndjson(ip, inputs)
+    rc, out = vf.run_gotest(ctx, binary, "^TestVfC12Rerun$", env={"VF_INPUTS": ip, "VF_VECTORS": vp}, timeout=300)
+    if "VFSUMMARY" not in out or not os.path.exists(vp):
+        raise vf.Inconclusive("rerun driver failed:\n" + out[-3000:])
+    recs = vf.read_ndjson(vp)
+    verdicts = validate_vectors(ctx, recs)
+    st = Stats()
+    judge_vectors(ctx, recs, verdicts, st, prop)
+    ctx.log("replayed %d inputs of %s: %d violation(s)" % (len(recs), ctx.replay, len(ctx.violations)))
+    ctx.cov = dict(evaluations=len(recs) + st["vec_decodes"], distinct_nontrivial=len(inputs),
+                   rule="replay of the inputs of reported violations (bin/check --replay); distinct by (type, protocol, kind, value)",
+                   replay_of=ctx.replay, samples=[dict(type=tshape(i["T"]), go=kshape(i["K"]), proto=i["p"], value=i["gv"]) for i in inputs[:3]])
 
 
 # ------------------------------------------------------------------ comparing abstract values
@@ -417,6 +458,8 @@ def collect(ctx):
 
 def run(ctx):
     ctx.level = "exploration"
+    if getattr(ctx, "replay", None):
+        return replay_run(ctx, "C12")
     cases, results, recs, verdicts = collect(ctx)
     st = Stats()
     judge_encoding(ctx, cases, results, st)
